@@ -38,7 +38,7 @@ type c20Event struct {
 }
 
 type c20Input struct {
-	Path        string     `json:"path"` // batch-msgp | batch-json | event-json | event-msgp
+	Path        string     `json:"path"` // batch-msgp | batch-json | event-json | event-msgp | otlp-msgp
 	TraceNames  []string   `json:"trace_names"`
 	ParentNames []string   `json:"parent_names"`
 	KeyFields   []string   `json:"key_fields"`
@@ -73,7 +73,7 @@ var c20Strs = []string{"", "a", "hello", "GET", "t1", "é世\U0001F600", "line\n
 var c20LongStrs = []string{strings.Repeat("s", 31), strings.Repeat("s", 32), strings.Repeat("L", 255), strings.Repeat("M", 256)}
 
 func c20Str(r *rand.Rand) string {
-	if r.Intn(12) == 0 {
+	if r.Intn(20) == 0 {
 		return c20Pick(r, c20LongStrs)
 	}
 	return c20Pick(r, c20Strs)
@@ -194,7 +194,7 @@ func c20NestedMap(r *rand.Rand, mode string, depth int) []mpField {
 }
 
 func c20Gen(r *rand.Rand, tier string, i int) any {
-	in := c20Input{Path: []string{"batch-msgp", "batch-msgp", "batch-json", "event-json", "event-msgp"}[r.Intn(5)]}
+	in := c20Input{Path: []string{"batch-msgp", "batch-msgp", "batch-json", "event-json", "event-msgp", "otlp-msgp"}[r.Intn(6)]}
 	mode := "msgp"
 	if strings.HasSuffix(in.Path, "json") {
 		mode = "json"
@@ -454,7 +454,8 @@ func c20GoValue(v mpVal) any {
 }
 
 func c20PathCoq(p string) string {
-	return map[string]string{"batch-msgp": "PBatchMsgp", "batch-json": "PBatchJson", "event-json": "PEventJson", "event-msgp": "PEventMsgp"}[p]
+	return map[string]string{"batch-msgp": "PBatchMsgp", "batch-json": "PBatchJson", "event-json": "PEventJson", "event-msgp": "PEventMsgp",
+		"otlp-msgp": "PMetaOnly"}[p]
 }
 
 func c20BuildBatchMsgp(in *c20Input) []byte {
@@ -545,6 +546,20 @@ func c20Run(raw json.RawMessage) (Case, error) {
 			code, _ := env.Post("events", dataset, ct, apiKey, in.UA, hdr, body)
 			statuses = append(statuses, code)
 		}
+	case "otlp-msgp":
+		// after husky's translation: msgpack attribute maps handed to processOTLPRequestBatchMsgp
+		var attrs [][]byte
+		var times []time.Time
+		var rates []int32
+		for i, ev := range in.Events {
+			attrs = append(attrs, mpEncodeMap(nil, ev.Fields, ev.W))
+			times = append(times, time.Unix(c20BaseTime+int64(i), 0).UTC())
+			rates = append(rates, int32(ev.Rate))
+		}
+		if err := env.PostOTLPMsgp(dataset, apiKey, in.UA, attrs, times, rates); err != nil {
+			return Case{}, err
+		}
+		statuses = append(statuses, 200)
 	default:
 		return Case{}, fmt.Errorf("bad path %q", in.Path)
 	}
@@ -622,7 +637,7 @@ func c20Run(raw json.RawMessage) (Case, error) {
 		// non-trivial: forwarded, and some client field went through decode + re-encode
 		memo := strings.HasPrefix(in.Path, "event")
 		for _, f := range ev.Fields {
-			if contains(keyFields, string(f.K)) {
+			if contains(keyFields, string(f.K)) && in.Path != "otlp-msgp" {
 				memo = true
 			}
 			if atCollector[i] {
